@@ -484,6 +484,17 @@ def run(prop, tier):
             cs = gen_default_case(r, n_e2e + i)
             cs["flags_of"] = flags_of
             cases.append(cs)
+        # thousands of detections in one run (ids must keep counting)
+        for i, ndet in enumerate([8300] if quick else [8300, 20000]):
+            pat = [1, 0] * ndet
+            vals = []
+            for on in pat:
+                vals.extend([(3000 if k % 2 == 0 else -3000) if on else 0 for k in range(10)])
+            cs = dict(idx=n_e2e + 100 + i, rate=1000, w=2, ch=1, W=10, aw=0.01, data=struct.pack("<%dh" % len(vals), *vals), pattern=pat, kind="stdin",
+                      opts={"analysis_window": 0.01, "min_duration": 0.01, "max_duration": 1.0, "max_silence": 0, "sampling_rate": 1000, "channels": 1, "sample_width": 2},
+                      tf="%S", pf="{id} {start} {end}", extras="", eth=50, uc=None, mr=None, jsil=0.0, spell=r.randrange(1 << 30))
+            cs["flags_of"] = flags_of
+            cases.append(cs)
         mcases = [model_split_case(cs) for cs in cases]
         mouts = C.model_eval(mcases)
         with mp.get_context("fork").Pool(C.NCPU) as pool:
@@ -540,7 +551,9 @@ def run(prop, tier):
                 if ob["stdout"]:
                     wrong = "-q printed %r" % ob["stdout"][:200]
             elif got_lines != want_lines:
-                wrong = "printed lines differ from the detections of split(): got %r, expected %r" % (got_lines[:6], want_lines[:6])
+                k0 = next((i for i, (a_, b_) in enumerate(zip(got_lines, want_lines)) if a_ != b_), min(len(got_lines), len(want_lines)))
+                wrong = "printed lines differ from the detections of split() (%d lines printed, %d detections; first difference at line %d): got %r, expected %r" % (
+                    len(got_lines), len(want_lines), k0 + 1, got_lines[k0:k0 + 4], want_lines[k0:k0 + 4])
             if wrong is None and cs["extras"] == "save_regions":
                 bps = cs["w"] * cs["ch"]
                 want = {}
